@@ -397,7 +397,7 @@ CHECKS = {
               "thorough": [["-mode", "snap", "-n", "400", "-len", "16"]]},
         bounds={"quick": (4, 3), "thorough": (6, 4)}, own_findings=[],
         assumptions=PERSIST_ASSUME, model="snap"),
-    "C19": SeqCheck(
+    "C19": Composite([SeqCheck(
         drivers={"quick": [["-family", f, "-n", "90", "-len", "40"] for f in ("kv", "hash", "list", "set", "zset", "expiry", "multidb")],
                  "thorough": [["-family", f, "-n", "1200", "-len", "60"] for f in ("kv", "hash", "list", "set", "zset", "expiry", "multidb")]},
         mc={"module": "MC_Store", "consts": mc_store(2, 3), "invariants": ["TypeOK", "MemZeroEmpty", "MemAdditive"],
@@ -406,6 +406,16 @@ CHECKS = {
             "machine constants of the size function (time.Time 24, string header 16, word 8, interface 16, MemberObject 32) are "
             "those of a 64-bit build"],
         extra_consts={"CheckMem": "TRUE"}),
+        # the figure under a memory limit: refused writes (noeviction) and evictions must leave it equal to the
+        # accounted size of what is stored (Trace_Evict: e.mem = MemOf(dataset) after every step)
+        TraceModelCheck(
+            jobs={"quick": [["evict", "-n", "12", "-len", "30", "-policies", "noeviction,allkeys-lfu,volatile-lfu,allkeys-random,volatile-random"]],
+                  "thorough": [["evict", "-n", "100", "-len", "40", "-policies", "noeviction,allkeys-lfu,volatile-lfu,allkeys-random,volatile-random"]]},
+            trace_spec="Trace_Evict", models={"quick": [], "thorough": []},
+            rule="one event = one command on a real server with a memory limit (policies noeviction, LFU and random); after every command "
+                 "the reported figure must equal MemOf of the recorded dataset, whether the write was stored, refused or made room by evicting",
+            assumptions=TRUSTED, count_keys=("histories", "commands", "evictions", "dead"), deviation_consts=True),
+    ]),
     "C20": Composite([
         SeqCheck(
             drivers={"quick": [["-family", "multidb", "-n", "450", "-len", "40"], ["-family", "multidb-swap", "-n", "150", "-len", "40"]],
@@ -470,7 +480,7 @@ ENGINES.append(
                        "blocking hooks at the keyspace critical sections; exclusion probes and a stress driver complete it"})
 
 ENGINES.append(
-    {"name": "trace-model", "path": "/verif/vlib/tracecheck.py", "serves_properties": ["C06", "C11", "C12", "C18", "C08", "C07", "C20"],
+    {"name": "trace-model", "path": "/verif/vlib/tracecheck.py", "serves_properties": ["C06", "C11", "C12", "C18", "C08", "C07", "C20", "C19"],
      "kind_free_text": "a Go driver records histories from the real server (connections served by the real handler over net.Pipe, "
                        "eviction, FSM); TLC validates them against the property's trace spec and model-checks its bounded model"})
 
